@@ -187,11 +187,23 @@ fn run_parser(p: &str, d: &str, bytes: &[u8]) -> (&'static str, &'static str) {
             }
         }
         "conf" => {
+            // The server parses its configuration on the main thread (8 MiB stack on this platform), not on a 2 MiB
+            // handler thread: "never overflows the stack" is judged against the stack the call really gets.
             let text = String::from_utf8_lossy(bytes);
-            match humphrey_server::config::tree::parse_conf(text.as_ref(), "fuzz.conf") {
-                Ok(_) => ("ok", ""),
-                Err(_) => ("err", ""),
-            }
+            let text: &str = text.as_ref();
+            std::thread::scope(|sc| {
+                let h = std::thread::Builder::new()
+                    .stack_size(8 << 20)
+                    .spawn_scoped(sc, move || match humphrey_server::config::tree::parse_conf(text, "fuzz.conf") {
+                        Ok(_) => ("ok", ""),
+                        Err(_) => ("err", ""),
+                    })
+                    .expect("spawn conf thread");
+                match h.join() {
+                    Ok(r) => r,
+                    Err(e) => std::panic::resume_unwind(e), // a panic of the parser stays a panic of this call
+                }
+            })
         }
         // Not a parser of /repo: a stand-in that misbehaves on demand, used by the check to prove that the worker and
         // the supervisor observe and attribute every kind of misbehaviour (first byte selects it).
@@ -478,6 +490,19 @@ impl Plan {
             v.push(("conf", "deep-section-open", c.clone()));
             c.extend(b"}\n".repeat(n + 1));
             v.push(("conf", "deep-section", c));
+            // every container kind by itself and mixed (a depth counter that forgets one kind shows only there)
+            let mut o = b"{\"a\":".repeat(n);
+            o.push(b'1');
+            o.extend(b"}".repeat(n));
+            v.push(("json", "deep-object", o));
+            v.push(("json", "deep-mixed-open", b"[{\"a\":".repeat(n)));
+            for (fam, unit, per) in [("deep-host", &b"host a {\n"[..], 1usize), ("deep-route", &b"route /a {\n"[..], 1), ("deep-mixed", &b"s {\nhost \"h\" {\nroute /* {\n"[..], 3)] {
+                let mut c = b"server {\n".to_vec();
+                c.extend(unit.repeat(n));
+                v.push(("conf", if per == 1 && fam == "deep-host" { "deep-host-open" } else if fam == "deep-route" { "deep-route-open" } else { "deep-mixed-open" }, c.clone()));
+                c.extend(b"}\n".repeat(per * n + 1));
+                v.push(("conf", fam, c));
+            }
             for (p, fam, b) in v {
                 if self.alpha.contains_key(p) && !emit(p, fam, b, &mut id) {
                     return;
@@ -826,7 +851,12 @@ fn run_shard(
         out.restarts += 1;
         if !last_terminal && how != "clean" {
             // attribution: the first unanswered case was in flight when the process died
-            if let Some(it) = pending.pop_front() {
+            // SIGKILL is never sent by the code under test; on a loaded machine it is the kernel's OOM killer picking a
+            // victim.  The case in flight is run again in a fresh worker (twice at most) before a kill is believed.
+            if how == "kill" && pending.front().map(|it| it.retried < 2).unwrap_or(false) {
+                let it = pending.pop_front().unwrap();
+                retry_item = Some(Item { case: it.case.clone(), d: it.d, limit_ms: it.limit_ms, retried: it.retried + 1 });
+            } else if let Some(it) = pending.pop_front() {
                 let o = match how {
                     "self-timeout" | "self-oom" => "abort", // exit code without its record: treat as death
                     x => x,
